@@ -3,7 +3,7 @@ import re
 
 import mprop
 
-INLINE = [r"PubPoint::process_collected$", r"StoredPoint::update$", r"StoredPoint::_update$"]
+INLINE = [r"PubPoint::process_collected$", r"StoredPoint::update$", r"StoredPoint::_update$", r"UpdateError::fatal$"]
 
 
 def run(res, tier):
